@@ -3,7 +3,7 @@ package main
 func init() {
 	register(prop{
 		ID: "C09", Pkg: "c09",
-		Rule:        "rapid draws (number of progress messages before the response, events with/without ids, priming event, retry field, CRLF framing, first body cut at ANY byte offset by read error or clean EOF, then a sequence of reconnect outcomes in {ok (replay after the presented Last-Event-ID, possibly cut again), transport error, 502/503, 404}, and what happens afterwards: ok or failing for ever); real mcp.Client + StreamableClientTransport against a scripted fake server over the in-memory HTTP bridge under virtual time. Oracle: progress handler sees 1..k exactly once in order and only messages whose event was completely sent; every reconnect presents the id of the last completely received event; CallTool returns the real result when the stream is resumable and a reconnect succeeds, an error (never a hang) otherwise. Non-trivial = cut strictly inside an event, or >=2 cuts, or a failed reconnect before a successful one; distinct by (shape, cut kinds, outcome kinds, offset class).",
+		Rule:        "TestC09_E2E: the real SDK client against the real stateful SDK server (with/without MemoryEventStore, priming and non-priming versions, JSON mode as control), 1-4 calls (some concurrent) whose handlers emit uniquely tagged notifications with pauses, out-of-request notifications, handler-closed streams; per logical stream a plan of body cuts (after k complete events, at 0 bytes or inside the next event, clean EOF or read error, lazy or eager) and reconnect outcomes (ok / transport error / 503); judged: real result, per-call notifications exactly once in order, must-succeed inside the retry budget, every call returns, nothing surfaced that was not completely sent, no goroutine left. rapid draws (number of progress messages before the response, events with/without ids, priming event, retry field, CRLF framing, first body cut at ANY byte offset by read error or clean EOF, then a sequence of reconnect outcomes in {ok (replay after the presented Last-Event-ID, possibly cut again), transport error, 502/503, 404}, and what happens afterwards: ok or failing for ever); real mcp.Client + StreamableClientTransport against a scripted fake server over the in-memory HTTP bridge under virtual time. Oracle: progress handler sees 1..k exactly once in order and only messages whose event was completely sent; every reconnect presents the id of the last completely received event; CallTool returns the real result when the stream is resumable and a reconnect succeeds, an error (never a hang) otherwise. Non-trivial = cut strictly inside an event, or >=2 cuts, or a failed reconnect before a successful one; distinct by (shape, cut kinds, outcome kinds, offset class).",
 		Assumptions: []string{"the server side is harness code speaking the streamable wire protocol (independent SSE writer)", "back-off jitter is random but bounded; the harness waits 15 virtual minutes", "TestC09_Standalone covers the standalone GET stream (log notifications with event ids, cuts and reconnects); streams without event ids are not judged there (the SDK documents that messages may be missed)"},
 		LevelText:   "Generated cut offsets / termination kinds / reconnect outcome sequences against a model of what was completely delivered; liveness (the call returns) decided under virtual time.",
 		LevelNote:   "Trusts the fake server and memhttp's byte-exact delivery; jittered back-off makes timing (not outcomes) non-deterministic.",
@@ -12,6 +12,7 @@ func init() {
 		Runs: []run{
 			{Test: "TestC09_Call", Quick: 2500, Thorough: 240000},
 			{Test: "TestC09_Standalone", Quick: 800, Thorough: 80000},
+			{Test: "TestC09_E2E", Quick: 2000, Thorough: 40000},
 		},
 	})
 }
